@@ -203,6 +203,33 @@ def run(rep: Report, tier: str) -> None:  # noqa: C901
             if got.get("id") != "R7":
                 rep.add(_finding("R25.2", "ruleset_id", gr, gr.node.lineno, f"the ruleset numbered 7 gets the id {got.get('id')!r}"))
 
+    # ---------------- R25.2 (cont.) whole function evaluated: a script with every kind of statement yields one item per statement ----------------
+    class _St:
+        def __init__(self, cls_: str, **kw: Any) -> None:
+            self._cls = cls_
+            self.__dict__.update(kw)
+    kids = [_St("Assignment", left=_St("VarID", value="A"), right=_St("X", tag="a")), _St("DPRuleset", name="dpr", signature_type="variable"),
+            _St("Operator", op="double"), _St("PersistentAssignment", left=_St("VarID", value="B"), right=_St("X", tag="b")),
+            _St("HRuleset", name="hr", signature_type="valuedomain"), _St("Operator", op="triple"), _St("Assignment", left=_St("VarID", value="C"), right=_St("X", tag="c"))]
+    mk = lambda kind: (lambda **kw: dict(kw, _kind=kind))  # noqa: E731
+    try:
+        scheme = _I(P, externals={"Ruleset": mk("Ruleset"), "Transformation": mk("Transformation"), "UserDefinedOperator": mk("UserDefinedOperator"), "RulesetScheme": mk("RulesetScheme"),
+                                  "UserDefinedOperatorScheme": mk("UserDefinedOperatorScheme"), "TransformationScheme": mk("TransformationScheme"),
+                                  "ASTString": _Renderer, "isinstance": _sm_isinstance}).call(a2s, {"ast": _St("Start", children=kids), "agency_id": "MD", "id": "X", "version": "1.0"})
+    except (_Un, _Ra) as e:
+        raise AnalysisError(f"R25.2: ast_to_sdmx outside the evaluator's language: {e}")
+    if not isinstance(scheme, dict) or scheme.get("_kind") != "TransformationScheme":
+        raise AnalysisError(f"R25.2: ast_to_sdmx does not return a TransformationScheme: {str(scheme)[:80]}")
+    got_t = [(t.get("id"), t.get("result"), t.get("is_persistent")) for t in scheme.get("items", [])]
+    got_r = [(r.get("id"), r.get("ruleset_type")) for sch in scheme.get("ruleset_schemes", []) or [] for r in sch.get("items", [])]
+    got_u = [(u.get("id"), str(u.get("name", "")).split()[-1]) for sch in scheme.get("user_defined_operator_schemes", []) or [] for u in sch.get("items", [])]
+    rep.instance("R25.2", "whole-script/items", sample={"transformations": got_t, "rulesets": got_r, "operators": got_u})
+    want_t, want_r, want_u = [("T1", "A", False), ("T2", "B", True), ("T3", "C", False)], [("R1", "datapoint"), ("R2", "hierarchical")], [("UDO1", "double"), ("UDO2", "triple")]
+    if (got_t, got_r, got_u) != (want_t, want_r, want_u):
+        rep.add(_finding("R25.2", "whole-script/items", a2s, a2s.node.lineno,
+                         f"a script with 3 assignments, 2 rulesets and 2 user-defined operators (interleaved) is converted to transformations {got_t}, rulesets {got_r}, operators {got_u}; "
+                         f"expected {want_t}, {want_r}, {want_u}: a definition that is missing from the scheme makes the regenerated script call something it no longer defines"))
+
     # ---------------- R25.3 field coverage, compact mode ----------------
     rep.rule("R25.3", "compact mode: every semantic field of every constructed node class is read by the renderer")
     sites = astctor.sites(P, G, set(NC))
